@@ -81,7 +81,7 @@ def run_family(h, lines, timeout):
         so = e.stdout or b""
         if isinstance(so, bytes):
             so = so.decode("utf-8", "replace")
-        outl = [l for l in so.split("\n") if l.startswith("cost\t")]
+        outl = [l for l in so.split("\n") if l.startswith("cost\t") or l.startswith("conflicts\t")]
         return outl, True, time.time() - t
 
 
@@ -242,6 +242,7 @@ def run(out, tier):
                 samples.append({"graph": rows[i][1], "V": model[i]["V"], "E": model[i]["E"], "impl_calls": {a: impl[i][a] for a in ALGS},
                                 "model_paths": model[i]["paths"], "model_visited_cost": model[i]["visited"], "impl_ns": impl[i]["ns"]})
 
+    conflict_table = conflict_cost(out, h, tier) if inproc else []
     cli = cli_tie(out, tier, findings)
     table = []
     for i, (fam, name, g, top, bottom) in enumerate(rows):
@@ -262,14 +263,55 @@ def run(out, tier):
         "counts_by_depth": table,
         "harness_wall_s_by_family_supporting_only": wall,
         "inprocess_tie": inproc,
+        "conflict_detection_counts": conflict_table,
         "cli_tie": cli,
     })
     out.assumptions += [
         "calls are counted exactly: len(GetAncestors(n))+1, len(GetDescendants(n))+1, and Select() invocations on counting BuildNodes for "
         "selectAllAncestorsForBuild (one Select() immediately before every entry, none elsewhere)",
         "cost of the visited variants = function entries + edges inspected; set membership is taken as one step",
-        "output-conflict detection (analysis.getAncestorSet) memoises ancestor sets and is not instrumented by this check",
+        "output-conflict detection: the work of analysis.getAncestorSet is counted as GetLabel() calls on counting nodes during BuildGraph "
+        "(every second node is a real Target declaring one shared output so that all pairs are compared, the others are counting nodes "
+        "WITHOUT outputs); it depends on map iteration order and is compared with the polynomial bound only (no model twin, no theorem)",
         "small polynomial = 4*(V+E+1)^2"]
+
+
+def conflict_cost(out, h, tier):
+    """Output-conflict detection (analysis.BuildGraph -> detectOutputConflicts -> getAncestorSet) on ladders, dense
+    DAGs and chains: operation count (GetLabel calls on the counting nodes) against 4*(V+E+1)^2; a timeout while
+    the chain of the same size is instant is a failing input as well."""
+    quick = tier == "quick"
+    fam = [("ladder2", [("ladder(2,%d)" % d, sl.ladder(2, d)) for d in (range(2, 15) if quick else range(2, 18))]),
+           ("ladder3", [("ladder(3,%d)" % d, sl.ladder(3, d)) for d in (range(2, 8) if quick else range(2, 11))]),
+           ("dense", [("dense(%d)" % n, sl.dense(n)) for n in ((6, 10, 14, 18) if quick else (6, 10, 14, 18, 24, 30))]),
+           ("chain", [("chain(%d)" % n, sl.chain(n)) for n in (10, 26, 40)])]
+    table = []
+    for name_f, gs, cmd in [(n, g, c) for n, g in fam for c in ("conflicts", "conflicts-ends")]:
+        lines = ["%s\t%s" % (cmd, sl.graphspec(g)) for _, g in gs]
+        res, timed_out, secs = run_family(h, lines, timeout=20 if quick else 120)
+        gs = [("%s[%s]" % (name, "every 2nd node has outputs" if cmd == "conflicts" else "only bottom and top have outputs"), g) for name, g in gs]
+        for (name, g), o in zip(gs, res):
+            f = o.split("\t")
+            V, E = len(g), sum(len(ds) for ds in g)
+            if f[0] != "conflicts":
+                out.violation("conflict-cost harness failed on %s: %s" % (name, o[:200]), {"graph": sl.graphspec(g)}, no_input=True)
+                continue
+            c = int(f[1])
+            table.append({"graph": name, "V": V, "E": E, "getlabel_calls": c, "bound": bound(V, E), "ns": int(f[4])})
+            if c > bound(V, E):
+                out.violation("output-conflict detection makes %d ancestor-set steps on %s (V=%d, E=%d): more than 4*(V+E+1)^2 = %d" % (
+                    c, name, V, E, bound(V, E)),
+                    {"algorithm": "analysis.detectOutputConflicts/getAncestorSet", "graph_name": name, "graph": sl.graphspec(g), "calls": c,
+                     "bound": bound(V, E), "harness_line": "%s\t%s" % (cmd, sl.graphspec(g))})
+                break
+        if timed_out and len(res) < len(gs):
+            name, g = gs[len(res)]
+            V, E = len(g), sum(len(ds) for ds in g)
+            out.violation("output-conflict detection does not finish within %ds on %s (V=%d, E=%d) while chains of the same size are instant" % (
+                20 if quick else 120, name, V, E),
+                {"algorithm": "analysis.detectOutputConflicts/getAncestorSet", "graph_name": name, "graph": sl.graphspec(g), "timeout": True,
+                 "harness_line": "%s\t%s" % (cmd, sl.graphspec(g))})
+    return table
 
 
 def cli_tie(out, tier, findings):
